@@ -114,6 +114,16 @@ func c07Scenarios(thorough bool) []*explore.Scenario {
 				Threads: []explore.ThreadProg{{w, op(explore.Put, "n3")}, rd, {op(explore.Count, ""), op(explore.Get, "m2")}}, Bound: -1})
 		}
 	}
+	// F4: Items scans running alongside writers and maintenance (scan oracles of C11: truthful, complete for untouched keys)
+	for i, w := range []explore.ThreadProg{{op(explore.Put, "a"), op(explore.Delete, "e")}, {op(explore.Delete, "a"), op(explore.Put, "n")}, {op(explore.Put, "e"), op(explore.Put, "e")}} {
+		for _, m := range []explore.OpKind{explore.Compact, explore.Sync} {
+			if !thorough && m == explore.Sync && i > 0 {
+				continue
+			}
+			scs = append(scs, &explore.Scenario{Name: fmt.Sprintf("WSM-%s-%d", m, i), Base: "S2", Cfg: "ROLL",
+				Threads: []explore.ThreadProg{w, {op(explore.Scan, ""), op(explore.Count, "")}, {op(m, "")}}, Bound: -1, QuietPop: true})
+		}
+	}
 	// F2 with Compact last (the largest interleaving spaces get whatever time is left)
 	for i, w1 := range []explore.Op{op(explore.Put, "a"), op(explore.Delete, "a"), op(explore.Put, "e"), op(explore.Delete, "e"), op(explore.Put, "c"), op(explore.Put, "n")} {
 		for j, w2 := range []explore.Op{op(explore.Put, "a"), op(explore.Delete, "b"), op(explore.Put, "e")} {
@@ -180,7 +190,20 @@ func boundName(b int) string {
 
 func runC07(c *explore.Ctx) {
 	runScenarioSet(c, c07Scenarios(c.Thorough()), func(base *explore.Base, sc *explore.Scenario) func(r *explore.ConcRun) (string, string) {
-		return linCheck(base)
+		lin := linCheck(base)
+		return func(r *explore.ConcRun) (string, string) {
+			if cl, msg := lin(r); msg != "" {
+				return cl, msg
+			}
+			for _, e := range r.Events {
+				if e.Op.Kind == explore.Scan {
+					if cl, msg := scanOracle(r, base, e); msg != "" {
+						return cl, msg
+					}
+				}
+			}
+			return "", ""
+		}
 	})
 }
 
